@@ -36,6 +36,8 @@ CONSTANTS SampleMod,   \* 1: every layout; n: about one layout in n (chosen by V
           Dump         \* TRUE: print every layout with its script once (spec -> code)
 
 VARIABLES lay,      \* the layout (fixed)
+          src,      \* Text(lay), the abstract source (fixed)
+          labels,   \* labels earned by the last completed operation (property layer)
           g,        \* value of the global name G in the cells' space
           pc,       \* "start" "classify" "dedent" "undecorate" "rename" "compile"
                     \* "extract" "execlam" | "ready" | "failed"
@@ -47,7 +49,7 @@ VARIABLES lay,      \* the layout (fixed)
           cn,       \* the name the cells must have
           nops
 
-vars == <<lay, g, pc, text, cur, prev, res, op, arg, cn, nops>>
+vars == <<lay, src, labels, g, pc, text, cur, prev, res, op, arg, cn, nops>>
 
 Seed == IF "VERIF_SEED" \in DOMAIN IOEnv THEN atoi(IOEnv.VERIF_SEED) % 10007 ELSE 0
 Sampled(l) == SampleMod = 1 \/ Hash(l, Seed) % SampleMod = 0
@@ -68,6 +70,8 @@ Script(l) ==
 
 Init ==
     /\ lay \in {l \in AllLayouts : Sampled(l)}
+    /\ src = Text(lay)
+    /\ labels = {}
     /\ g = 7
     /\ pc = "start"
     /\ text = <<>>
@@ -76,65 +80,77 @@ Init ==
     /\ cn = CellsName(lay)
     /\ nops = 0
 
+-----------------------------------------------------------------------------------------------------------------------------------------------------
+(* property layer: the labels an operation earns, evaluated on the          *)
+(* projection of the model state that has the shape of an observation       *)
+
+ObsOf(o_, cur_, res_, g_) ==
+    IF res_.ok THEN Project(lay, res_, g_)
+    ELSE IF o_ = "capture" THEN ProjectRejected(res_.err)
+    ELSE [Project(lay, cur_, g_) EXCEPT !.ok = FALSE, !.err = res_.err]
+
+LabelsOf(o_, a_, cn_, g_, prev_, cur_, res_) ==
+    OpLabels(lay, src, o_, a_, cn_, g_, Project(lay, prev_, g_), ObsOf(o_, cur_, res_, g_))
+
 -----------------------------------------------------------------------------
 (* the capture pipeline                                                    *)
 
 Fail(err) ==
     /\ res' = Rejected(err) /\ pc' = "failed"
-    /\ UNCHANGED <<lay, g, text, cur, prev, op, arg, cn, nops>>
+    /\ labels' = LabelsOf("capture", NoArg, cn, g, prev, cur, Rejected(err))
+    /\ UNCHANGED <<lay, src, g, text, cur, prev, op, arg, cn, nops>>
 
 GetSource ==
     /\ pc = "start"
-    /\ text' = IF lay.form = "funcobj" THEN GetBlock(Text(lay)) ELSE Text(lay)
+    /\ text' = IF lay.form = "funcobj" THEN GetBlock(src) ELSE src
     /\ pc' = "classify"
-    /\ UNCHANGED <<lay, g, cur, prev, res, op, arg, cn, nops>>
+    /\ UNCHANGED <<lay, src, labels, g, cur, prev, res, op, arg, cn, nops>>
 
 Classify ==
     /\ pc = "classify"
     /\ IF IsDef(lay) /\ ParseErr(Dedent(text)) # ""
        THEN Fail(ParseErr(Dedent(text)))          \* is_funcdef parses dedent(src) and raises
        ELSE /\ pc' = IF lay.form = "lamobj" THEN "extract" ELSE "dedent"
-            /\ UNCHANGED <<lay, g, text, cur, prev, res, op, arg, cn, nops>>
+            /\ UNCHANGED <<lay, src, labels, g, text, cur, prev, res, op, arg, cn, nops>>
 
 DedentStep ==
     /\ pc = "dedent"
     /\ text' = Dedent(text)
     /\ pc' = IF IsDef(lay) THEN "undecorate" ELSE "extract"
-    /\ UNCHANGED <<lay, g, cur, prev, res, op, arg, cn, nops>>
+    /\ UNCHANGED <<lay, src, labels, g, cur, prev, res, op, arg, cn, nops>>
 
 RemoveDecoratorStep ==
     /\ pc = "undecorate"
     /\ text' = RemoveDecorator(text)
     /\ pc' = "rename"
-    /\ UNCHANGED <<lay, g, cur, prev, res, op, arg, cn, nops>>
+    /\ UNCHANGED <<lay, src, labels, g, cur, prev, res, op, arg, cn, nops>>
 
 ReplaceFuncNameStep ==          \* the name token of the first `def`; lines stay
     /\ pc = "rename"
     /\ pc' = "compile"
-    /\ UNCHANGED <<lay, g, text, cur, prev, res, op, arg, cn, nops>>
+    /\ UNCHANGED <<lay, src, labels, g, text, cur, prev, res, op, arg, cn, nops>>
+
+Captured(f) ==
+    /\ res' = f /\ cur' = f /\ pc' = "ready"
+    /\ labels' = LabelsOf("capture", NoArg, cn, g, prev, f, f)
+    /\ UNCHANGED <<lay, src, g, text, prev, op, arg, cn, nops>>
 
 CompileStep ==
     /\ pc = "compile"
     /\ IF ParseErr(text) # "" THEN Fail(ParseErr(text))
-       ELSE /\ res' = [ok |-> TRUE, err |-> "", islam |-> FALSE, name |-> cn, lines |-> text,
-                       doc |-> [code |-> lay.doc, exact |-> FALSE, cont |-> 0]]
-            /\ cur' = res'
-            /\ pc' = "ready"
-            /\ UNCHANGED <<lay, g, text, prev, op, arg, cn, nops>>
+       ELSE Captured([ok |-> TRUE, err |-> "", islam |-> FALSE, name |-> cn, lines |-> text,
+                      doc |-> [code |-> lay.doc, exact |-> FALSE, cont |-> 0]])
 
 ExtractLambdaStep ==
     /\ pc = "extract"
     /\ text' = ExtractLambda(text)
     /\ pc' = "execlam"
-    /\ UNCHANGED <<lay, g, cur, prev, res, op, arg, cn, nops>>
+    /\ UNCHANGED <<lay, src, labels, g, cur, prev, res, op, arg, cn, nops>>
 
 ExecLambdaStep ==
     /\ pc = "execlam"
     /\ IF LamExecErr(text) # "" THEN Fail(LamExecErr(text))
-       ELSE /\ res' = [ok |-> TRUE, err |-> "", islam |-> TRUE, name |-> cn, lines |-> text, doc |-> NoDoc]
-            /\ cur' = res'
-            /\ pc' = "ready"
-            /\ UNCHANGED <<lay, g, text, prev, op, arg, cn, nops>>
+       ELSE Captured([ok |-> TRUE, err |-> "", islam |-> TRUE, name |-> cn, lines |-> text, doc |-> NoDoc])
 
 -----------------------------------------------------------------------------
 (* operations on a captured formula                                        *)
@@ -144,38 +160,35 @@ Allowed(o, a) ==
     /\ IF Scripted THEN nops < Len(Script(lay)) /\ Script(lay)[nops + 1] = [op |-> o, arg |-> a]
        ELSE nops < MaxOps
 
-Did(o, a) == op' = o /\ arg' = a /\ nops' = nops + 1 /\ prev' = cur /\ pc' = "ready"
+\* the operation o(a) produced r; the cells is c afterwards, its name must be n, G is v
+Did(o, a, r, c, n, v) ==
+    /\ op' = o /\ arg' = a /\ res' = r /\ cur' = c /\ cn' = n /\ g' = v
+    /\ prev' = cur /\ nops' = nops + 1 /\ pc' = "ready"
+    /\ labels' = LabelsOf(o, a, n, v, cur, c, r)
+    /\ UNCHANGED <<lay, src, text>>
 
-Recreate ==
+Recreate == 
     /\ Allowed("recreate", NoArg)
-    /\ res' = RecreateFn(cur)
-    /\ Did("recreate", NoArg)
-    /\ UNCHANGED <<lay, g, text, cur, cn>>
+    /\ Did("recreate", NoArg, RecreateFn(cur), cur, cn, g)
 
 Rename(n) ==
-    /\ Allowed("rename", [NoArg EXCEPT !.name = n])
-    /\ n # cur.name
-    /\ res' = RenameFn(cur, n)
-    /\ cur' = KeepOld(cur, res')
-    /\ cn' = IF res'.ok THEN n ELSE cn
-    /\ Did("rename", [NoArg EXCEPT !.name = n])
-    /\ UNCHANGED <<lay, g, text>>
+    LET a == [NoArg EXCEPT !.name = n]
+        r == RenameFn(cur, n)
+    IN /\ Allowed("rename", a)
+       /\ n # cur.name
+       /\ Did("rename", a, r, KeepOld(cur, r), IF r.ok THEN n ELSE cn, g)
 
 SetDoc(k, ii) ==
-    /\ Allowed("setdoc", [NoArg EXCEPT !.k = k, !.ii = ii])
-    /\ (IsDef(lay) /\ IsOne(cur.lines)) => NewDocLen(k) = 1    \* bound: one-line docs on one-line bodies
-    /\ res' = SetDocFn(cur, k, ii)
-    /\ cur' = KeepOld(cur, res')
-    /\ Did("setdoc", [NoArg EXCEPT !.k = k, !.ii = ii])
-    /\ UNCHANGED <<lay, g, text, cn>>
+    LET a == [NoArg EXCEPT !.k = k, !.ii = ii]
+        r == SetDocFn(cur, k, ii)
+    IN /\ Allowed("setdoc", a)
+       /\ (IsDef(lay) /\ IsOne(cur.lines)) => NewDocLen(k) = 1    \* bound: one-line docs on one-line bodies
+       /\ Did("setdoc", a, r, KeepOld(cur, r), cn, g)
 
 SetRef(v) ==
     /\ Allowed("setref", [NoArg EXCEPT !.g = v])
     /\ v # g
-    /\ g' = v
-    /\ res' = cur
-    /\ Did("setref", [NoArg EXCEPT !.g = v])
-    /\ UNCHANGED <<lay, text, cur, cn>>
+    /\ Did("setref", [NoArg EXCEPT !.g = v], cur, cur, cn, v)
 
 Next ==
     \/ GetSource \/ Classify \/ DedentStep \/ RemoveDecoratorStep \/ ReplaceFuncNameStep
@@ -188,20 +201,10 @@ Next ==
 Spec == Init /\ [][Next]_vars
 
 -----------------------------------------------------------------------------
-(* property layer: the labels of the last completed operation              *)
+(* the C20 predicates as invariants (one per predicate)                    *)
 
 Settled == pc \in {"ready", "failed"}
-
-\* the model state in the shape of an observation
-ObsNow ==
-    IF res.ok THEN Project(lay, res, g)
-    ELSE IF op = "capture" THEN ProjectRejected(res.err)
-    ELSE [Project(lay, cur, g) EXCEPT !.ok = FALSE, !.err = res.err]
-ObsPrev == Project(lay, prev, g)
-
-LabelsNow == IF Settled THEN OpLabels(lay, op, arg, cn, g, ObsPrev, ObsNow) ELSE {}
-
-Holds(label) == label \notin LabelsNow
+Holds(label) == label \notin labels
 
 Inv_C20_Accepted            == Holds("C20.Accepted")
 Inv_C20_NoDecoratorLeft     == Holds("C20.NoDecoratorLeft")
@@ -214,20 +217,20 @@ Inv_C20_Idempotent          == Holds("C20.Idempotent")
 Inv_C20_RenameInert         == Holds("C20.RenameInert")
 Inv_C20_DocInert            == Holds("C20.DocInert")
 \* the known findings are counterexamples of the design as it is (MC_MxFormula_kf.cfg)
-Inv_NoKnownFinding          == ExcuseKF \/ LabelsNow \cap KFNames = {}
+Inv_NoKnownFinding          == ExcuseKF \/ labels \cap KFNames = {}
 
-\* consistency of the algorithm layer: the steps compose to the functions the trace
+\* consistency of the algorithm layer: the steps compose to the function the trace
 \* specification uses
 Inv_StepsEqFunction ==
     (Settled /\ op = "capture") =>
-        LET f == CaptureFn(lay, cn) IN
+        LET f == CaptureFn(lay, src, cn) IN
         IF f.ok THEN pc = "ready" /\ cur = f ELSE pc = "failed" /\ res = f
 
------------------------------------------------------------------------------
+-----
 (* spec -> code: every layout printed once with the history to run on it   *)
 CaseJson ==
     [lay |-> lay, via |-> Via(lay), eofnl |-> EofNl(lay), cname |-> CellsName(lay),
-     text |-> [i \in DOMAIN Text(lay) |-> Text(lay)[i]],
+     text |-> src,
      script |-> Script(lay)]
 
 DumpCase == IF Dump /\ pc = "start" THEN PrintT(<<"MBT", ToJson(CaseJson)>>) ELSE TRUE
